@@ -11,11 +11,11 @@ PROFILES = ["content-larger", "directory-larger"]
 WSET = "write,pwrite64,writev,copy_file_range,sendfile"
 
 
-def run_child(binary, casefile, d, limit=None, ignore_xfsz=False, wrapper=None, kill_after=None, transient=False):
+def run_child(binary, casefile, d, limit=None, ignore_xfsz=False, wrapper=None, kill_after=None, transient=False, name="c.jbk"):
     """ignore_xfsz: every write past the limit returns EFBIG; transient: only the first one does (the child's SIGXFSZ handler lifts the
     soft limit, so the hard limit is left unlimited here)."""
     mode = "2" if transient else ("1" if ignore_xfsz else "0")
-    cmd = (wrapper or []) + [binary, "c09-child", "--case-file", casefile, "--dir", d, "--name", "c.jbk", "--ignore-xfsz", mode]
+    cmd = (wrapper or []) + [binary, "c09-child", "--case-file", casefile, "--dir", d, "--name", name, "--ignore-xfsz", mode]
 
     def pre():
         os.setsid()
@@ -38,8 +38,8 @@ def run_child(binary, casefile, d, limit=None, ignore_xfsz=False, wrapper=None, 
     return p.returncode, (err or b"").decode(errors="replace")[-500:]
 
 
-def inspect(binary, casefile, d, olddir):
-    dest = os.path.join(d, "c.jbk")
+def inspect(binary, casefile, d, olddir, name="c.jbk"):
+    dest = os.path.join(d, name)
     listing = sorted(os.listdir(d))
     if not os.path.exists(dest):
         return {"state": "absent", "listing": listing}
@@ -99,6 +99,21 @@ def run(tier, seed):
                     rep.add_violation({"kind": "uninterrupted-not-complete", "packaging": pkg}, f"C09: uninterrupted creation ({tag}) does not "
                                       f"leave a complete container: {ins}", {}, {"pkg": pkg, "profile": prof}, "release")
                     continue
+                # destination names whose extension is one the creator gives to the files it makes next to the destination
+                for odd in ("c.jbkd", "c.jbkc", "c.jbkm", "c"):
+                    d2 = os.path.join(work, f"ref-{tag}-{odd}")
+                    os.makedirs(d2)
+                    rc2, err2 = run_child(binary, casefile, d2, name=odd)
+                    shutil.rmtree(os.path.join(d2, "inputs"), ignore_errors=True)
+                    ins2 = inspect(binary, casefile, d2, None, name=odd)
+                    rep.evaluations += 1
+                    rep.fps.add(f"name-{tag}-{odd}")
+                    rep.obs_inc("uninterrupted_creations_with_other_destination_names")
+                    if rc2 == 0 and ins2.get("state") != "new-complete":
+                        rep.add_violation({"kind": "uninterrupted-not-complete", "packaging": pkg, "name": odd}, f"C09: uninterrupted creation ({tag}) at a destination "
+                                          f"named {odd} does not leave a complete container: {ins2}", {}, {"pkg": pkg, "profile": prof, "name": odd}, "release")
+                    elif rc2 != 0:
+                        rep.obs_inc("creations_refused_for_a_destination_name")
                 sizes = {n: os.path.getsize(os.path.join(refdir, n)) for n in os.listdir(refdir) if os.path.isfile(os.path.join(refdir, n))}
                 maxsize = max(sizes.values())
                 refs[tag] = {"sizes": sizes, "files": len(sizes)}
